@@ -395,6 +395,7 @@ def run(ctx: Ctx) -> None:
 NODE = "cartgraph/node.py"
 G = "cartgraph/graph.py"
 MUTANTS = [
+    ("inflight-held-against-rerun-status", "cartgraph/node.py", "rerun_statuses_violated = {*test_statuses} - {*rerun_status} - {\"unknown\"}", "rerun_statuses_violated = {*test_statuses} - {*rerun_status}", "1i"),
     ("replay-existing-file-rejected", "plugins/runner.py", "            if not os.path.isfile(replay_results):", "            if os.path.isfile(replay_results):", "5"),
     ("replay-named-jobs-skipped", "plugins/runner.py", "            if not replay_job:\n                continue", "            if replay_job:\n                continue", "5"),
     ("rerun-defaults-swapped", "cartgraph/node.py", "        if self.params.get(\"replay\"):\n            rerun_status = self.params.get_list(", "        if not self.params.get(\"replay\"):\n            rerun_status = self.params.get_list(", "d"),
